@@ -264,7 +264,7 @@ func c24Gen() *rapid.Generator[c24Case] {
 		clock := c.StartNano
 		// a few ranges the history keeps coming back to
 		type rng struct{ from, to int64 }
-		nr := rapid.IntRange(1, 4).Draw(t, "nranges")
+		nr := rapid.IntRange(1, 3).Draw(t, "nranges")
 		var ranges []rng
 		for i := 0; i < nr; i++ {
 			var age int64
@@ -309,15 +309,15 @@ func c24Gen() *rapid.Generator[c24Case] {
 			}
 			return secs
 		}
-		nops := rapid.IntRange(2, 14).Draw(t, "nops")
+		nops := rapid.IntRange(3, 18).Draw(t, "nops")
 		for i := 0; i < nops; i++ {
 			switch k := rapid.IntRange(0, 9).Draw(t, "opkind"); {
 			case k <= 5:
 				r := ranges[rapid.IntRange(0, len(ranges)-1).Draw(t, "get-range")]
-				op := c24Op{Kind: 0, Q: rapid.IntRange(0, 2).Draw(t, "q"), From: r.from, To: r.to,
+				op := c24Op{Kind: 0, Q: rapid.SampledFrom([]int{0, 0, 0, 1, 1, 2}).Draw(t, "q"), From: r.from, To: r.to,
 					Rows: rapid.SampledFrom([]int{0, 1, 1, 2, 5}).Draw(t, "rows")}
-				op.Avoid = rapid.IntRange(0, 11).Draw(t, "avoid") == 0
-				op.Fail = rapid.IntRange(0, 11).Draw(t, "fail") == 0
+				op.Avoid = rapid.IntRange(0, 19).Draw(t, "avoid") == 0
+				op.Fail = rapid.IntRange(0, 19).Draw(t, "fail") == 0
 				if rapid.IntRange(0, 3).Draw(t, "during") == 0 {
 					nd := rapid.IntRange(1, 2).Draw(t, "nduring")
 					for j := 0; j < nd; j++ {
